@@ -93,6 +93,7 @@ class Ctx(object):
     # -- path management -------------------------------------------------
     def _new_path(self, prefix):
         self.prefix = list(prefix)
+        self._model = None
         self.decisions = []
         self.pc = []
         self.side = []
@@ -108,6 +109,18 @@ class Ctx(object):
     def add(self, t):
         self.pc.append(t)
         self.solver.add(t)
+        if self._model is not None:
+            try:
+                if not z3.is_true(self._model.eval(t, model_completion=True)):
+                    self._model = None
+            except z3.Z3Exception:
+                self._model = None
+
+    def _grab_model(self):
+        try:
+            self._model = self.solver.model()
+        except z3.Z3Exception:
+            self._model = None
 
     def _check(self, *assumptions):
         t0 = time.time()
@@ -134,8 +147,36 @@ class Ctx(object):
         if i < len(self.prefix):
             v = self.prefix[i]
         else:
-            can_t = self.feasible(t)
-            can_f = self.feasible(z3.Not(t))
+            # a cached model of the path condition decides one side for free
+            known = None
+            if self._model is not None:
+                try:
+                    mv = self._model.eval(t, model_completion=True)
+                    if z3.is_true(mv):
+                        known = True
+                    elif z3.is_false(mv):
+                        known = False
+                except z3.Z3Exception:
+                    known = None
+            m_t = m_f = None
+
+            def chk(cond):
+                r = self._check(cond)
+                if r == z3.sat:
+                    try:
+                        return True, self.solver.model()
+                    except z3.Z3Exception:
+                        return True, None
+                return r != z3.unsat, None
+            if known is True:
+                can_t, m_t = True, self._model
+                can_f, m_f = chk(z3.Not(t))
+            elif known is False:
+                can_f, m_f = True, self._model
+                can_t, m_t = chk(t)
+            else:
+                can_t, m_t = chk(t)
+                can_f, m_f = chk(z3.Not(t))
             if can_t and can_f:
                 v = True
                 self.pending.append(self.decisions + [False])
@@ -146,6 +187,7 @@ class Ctx(object):
                 v = False
             else:
                 raise PathAbort()
+            self._model = m_t if v else m_f
         self.decisions.append(v)
         self.add(t if v else z3.Not(t))
         return v
